@@ -41,7 +41,11 @@ def generate(seed, tier):
     k["labels"] = model.LABELS[:rng.choice([1, 2, 3, 6])]
     k["pos"] = model.POS[:rng.choice([1, 2, 3])]
     k["vocab"] = rng.choice([2, 3, 100])
-    k["n_max"] = rng.choice([2, 3, 5, 8])
+    k["n_max"] = rng.choice([2, 3, 5, 8, 12, 14])
+    if k["n_max"] >= 12:
+        k["n_min"] = 11
+        k["flat"] = rng.choice([0.3, 0.7])          # rules with more than ten variables
+        k["arity"] = 12
     tb = model.gen_treebank(rng, k, nsent=rng.choice([1, 2, 3, 5]))
     for s in tb:
         for t in s["tokens"]:
@@ -55,7 +59,8 @@ def generate(seed, tier):
     path = rng.choice(["api", "api", "cli"])
     if fmt == "lopar" and path == "api" and rng.random() < 0.6:
         for s in tb:
-            s["root"][0] = rng.choice(["VROOT", "TOP", "FRAG", "ROOT"])   # several start symbols
+            # several start symbols; some of them also occur inside other trees
+            s["root"][0] = rng.choice(["VROOT", "TOP", "FRAG", "ROOT"] + k["labels"][:2])
     opts = {}
     if fmt in ("pmcfg", "rcg") and rng.random() < 0.3:
         opts["lex_in_grammar"] = True
